@@ -210,7 +210,8 @@ func (c *monC13) After(m *Machine, s *Step) *Violation {
 		cls := op.K + ":" + sessKind
 		if !owner {
 			// the one permitted exception: a pending/half/own validate consuming exactly one presented recovery code
-			if dR && !dT && !dS && consumedOneRecovery(pre, post, s) && (op.K == "totpvalidate" || op.K == "smsvalidate") && (uid == pid || r.SessBefore["totp_pending"] == pid || r.SessBefore["sms_pending"] == pid) {
+			if dR && !dT && !dS && consumedOneRecovery(pre, post, s) && (op.K == "totpvalidate" || op.K == "smsvalidate") && (uid == pid || r.SessBefore["totp_pending"] == pid || r.SessBefore["sms_pending"] == pid || (uid == "" && m.rotationOwner(s) == pid)) {
+				// (the last case: the remember middleware re-authenticated pid on the way into this request)
 				continue
 			}
 			return violation("C13", "2fa-setting-changed-by-non-owner:"+cls, "%s request from a %s session (user %q) changed 2FA settings of %q (totp %v sms %v recovery %v)", op.K, sessKind, uid, pid, dT, dS, dR)
